@@ -73,6 +73,8 @@ class Sandbox(object):
         e = {'PATH': os.environ.get('PATH', ''), 'HOME': self.home,
              'XDG_DATA_HOME': os.path.join(self.home, '.local', 'share'),
              'LANG': 'C.UTF-8', 'LC_ALL': 'C.UTF-8',
+             # an ordinary xx_YY.UTF-8 terminal: strict encoding on stdout
+             'PYTHONIOENCODING': 'utf-8:strict',
              'PYTHONPATH': self.repo}
         e.update(env or {})
         cmd = [REAL_PYTHON, os.path.join(self.repo, tool)] + list(args)
